@@ -6,9 +6,12 @@ res = {}
 for f in sys.argv[1:]:
     tag = 'r2-' if 'refac2' in f else ''
     for ln in open(f):
-        m = re.match(r'== (\w+)/(R\d) alarms:(.*)', ln.strip())
+        m = re.match(r'== ([\w-]+)/(R\d|\.) alarms:(.*)', ln.strip())
         if m:
-            res[tag + m.group(1) + '-' + m.group(2)] = m.group(3).split()
+            if m.group(2) == '.':
+                res[m.group(1)] = m.group(3).split()
+            else:
+                res[tag + m.group(1) + '-' + m.group(2)] = m.group(3).split()
 rows = []
 for d in sorted(glob.glob('/verif/refactor/*')):
     name = os.path.basename(d)
